@@ -360,7 +360,7 @@ def validate(ctx, trace, prefix, chunk=1200, workers=None):
                 continue
             reported.add((s, name))
             at = l - l0 - 1
-            ctx.violation("%s %s" % (name, scen[0].get("sig")),
+            ctx.violation("%s %s" % (name, scenario_sig(scen)),
                           "TLC: invariant %s is FALSE on the store projection recorded after event %d of scenario %s\nevent: %s" % (
                               name, at, scen[0].get("id"), json.dumps(scen[min(at, len(scen) - 1)])[:1500]),
                           {"module": TRACE, "invariant": name, "at_event": at, "schedule": json.loads(scen[0]["sched"]),
@@ -370,6 +370,22 @@ def validate(ctx, trace, prefix, chunk=1200, workers=None):
     if drift_first is not None:
         raise vlib.Infra("specification drift: " + drift_first[1])
     return len(spans), len(events)
+
+
+def scenario_sig(scen):
+    """signature of a scenario: the one given by the schedule; for random schedules the faults that really fired"""
+    sc = scen[0]
+    if sc.get("class") != "random":
+        return sc.get("sig")
+    name = CFG_NAME.get(cfg_key(sc["cfg"]), "?")
+    fs, rec = [], {}
+    for ev in scen[1:]:
+        if ev["ev"] == "Start" and ev["t"] == "rec":
+            rec[ev["a"]] = rec.get(ev["a"], 0) + 1
+        if ev["ev"] == "Call" and ev["res"] != "ok":
+            fs.append("%s@%s/%s#p%dr%dk%d" % ({"fail": "Fail", "crash": "Crash"}[ev["res"]], ev["verb"], ev["kind"], ev["a"], rec.get(ev["a"], 0), ev["k"]))
+    evs = [ev["e"] + "(%d)" % ev["p"] for ev in scen[1:] if ev["ev"] == "Start" and ev["t"] == "hdl"]
+    return "kind=%s fault=%s%s" % (name, "+".join(fs) or "none", (" ev=" + ",".join(evs)) if evs else "")
 
 
 def account(ctx, scheds):
